@@ -99,6 +99,16 @@ VALUE_POOL = [
 ]
 
 
+def wfc_state(node, k):
+    """State returned by poll k of a wait_for_condition node (k = 0: the configured initial state)."""
+    if k == 0:
+        return node.get("init", {"n": 0, "h": []})
+    if "states" in node:
+        st = node["states"]
+        return st[min(k, len(st)) - 1]
+    return {"n": k, "h": list(range(1, k + 1))}
+
+
 class UserError(Exception):
     pass
 
@@ -313,7 +323,7 @@ def build_handler(prog: dict, rec: Recorder):
                 if fail_at and attempt == fail_at:
                     rec.fn_exit(path, False)
                     raise UserError(f"poll fail {path} a{attempt}")
-                new = {"n": (state or {}).get("n", 0) + 1, "h": [*(state or {}).get("h", []), attempt]}
+                new = wfc_state(node, attempt)
                 rec.fn_exit(path, True)
                 return new
 
@@ -324,7 +334,7 @@ def build_handler(prog: dict, rec: Recorder):
                 if cont:
                     return WaitForConditionDecision.continue_waiting(Duration(seconds=delay))
                 return WaitForConditionDecision.stop_polling()
-            cfg = WaitForConditionConfig(wait_strategy=wstrat, initial_state={"n": 0, "h": []})
+            cfg = WaitForConditionConfig(wait_strategy=wstrat, initial_state=wfc_state(node, 0))
             guarded(node, path, obs, lambda: ctx.wait_for_condition(check, cfg, name=name))
         elif k == "child":
             def body(cctx, node=node, path=path):
